@@ -58,14 +58,15 @@ Qed.
 Corollary cycle_certified : forall E c, is_cycle E c = true -> acyclic E = false /\ has_cycle E.
 Proof. intros E c H. split. exact (is_cycle_not_acyclic E c H). exact (is_cycle_sound E c H). Qed.
 
-(* ---------- invariant of the machine ---------- *)
+(* ---------- invariants of the machine ---------- *)
 Section Proofs.
-  Variable E : list edge.
+  Variable E : list tedge.
+  Variable role_of : thread -> role.
   Variable can_grant : state -> thread -> lock -> Prop.
 
-  (* whatever a thread waits for was requested under the locks it holds *)
+  (* whatever a thread waits for was requested under the locks it holds, and is not one of them *)
   Definition inv (s : state) : Prop :=
-    forall t l, waiting (s t) = Some l -> allowed E (held (s t)) l.
+    forall t l, waiting (s t) = Some l -> allowed E (role_of t) (held (s t)) l /\ ~ In l (held (s t)).
 
   Lemma upd_same : forall s t x, upd s t x t = x.
   Proof. intros. unfold upd. rewrite Nat.eqb_refl. reflexivity. Qed.
@@ -75,11 +76,11 @@ Section Proofs.
   Lemma inv_init : inv init.
   Proof. intros t l H. cbn in H. discriminate H. Qed.
 
-  Lemma inv_step : forall s s', inv s -> step E can_grant s s' -> inv s'.
+  Lemma inv_step : forall s s', inv s -> step E role_of can_grant s s' -> inv s'.
   Proof.
     intros s s' Hinv Hst. destruct Hst as [s t l Hw Hn Hal | s t l Hw Hg | s t l Hw Hin];
       intros u m Hu; destruct (Nat.eq_dec u t) as [->|Hne].
-    - rewrite upd_same in *. cbn in *. injection Hu as <-. exact Hal.
+    - rewrite upd_same in *. cbn in *. injection Hu as <-. split; assumption.
     - rewrite upd_other in * by exact Hne. apply Hinv. exact Hu.
     - rewrite upd_same in Hu. cbn in Hu. discriminate Hu.
     - rewrite upd_other in * by exact Hne. apply Hinv. exact Hu.
@@ -87,18 +88,29 @@ Section Proofs.
     - rewrite upd_other in * by exact Hne. apply Hinv. exact Hu.
   Qed.
 
-  Lemma inv_reachable : forall s, reachable E can_grant s -> inv s.
+  Lemma inv_reachable : forall s, reachable E role_of can_grant s -> inv s.
   Proof.
     intros s Hr. induction Hr as [|s s' Hr IH Hst]. apply inv_init. apply inv_step with (s := s); assumption.
   Qed.
 
-  (* ---------- no deadlocked set, no wait-for cycle ---------- *)
-  (* in a state satisfying the invariant, "t waits for u" climbs the rank of the awaited lock *)
-  Lemma waits_rank : forall (rk : lock -> nat) s,
-    (forall a b, In (a, b) E -> rk a < rk b) -> inv s ->
-    forall t u l m, waiting (s t) = Some l -> In l (held (s u)) -> waiting (s u) = Some m -> rk l < rk m.
+  (* ---------- what the refined check gives per edge ---------- *)
+  Lemma order_ok_edge : forall single rk, order_ok single rk E = true ->
+    forall r a b, In (r, (a, b)) E ->
+      rk a < rk b \/
+      (rk a = rk b /\ single r = true /\
+       forall r' a' b', In (r', (a', b')) E -> rk a' = rk b' -> rk a' = rk a -> r' = r).
   Proof.
-    intros rk s Hrk Hinv t u l m Ht Hheld Hu. apply Hrk. apply (Hinv u m Hu l Hheld).
+    intros single rk H r a b Hin. unfold order_ok in H. rewrite forallb_forall in H.
+    specialize (H (r, (a, b)) Hin). unfold tfrom, tto, flat in H. cbn [fst snd] in H.
+    destruct (Nat.ltb (rk a) (rk b)) eqn:Hlt.
+    - left. apply Nat.ltb_lt. exact Hlt.
+    - right. destruct (Nat.eqb (rk a) (rk b)) eqn:Heq; [cbn [negb] in H | cbv [negb] in H; discriminate H].
+      destruct (single r) eqn:Hs; [cbn [negb] in H | cbv [negb] in H; discriminate H].
+      apply Nat.eqb_eq in Heq. split. exact Heq. split. reflexivity.
+      intros r' a' b' Hin' Hflat Hlev. rewrite forallb_forall in H.
+      specialize (H (r', (a', b')) Hin'). cbn [fst snd] in H.
+      apply Nat.eqb_eq in Hflat. rewrite Hflat in H. apply Nat.eqb_eq in Hlev. rewrite Hlev in H.
+      apply N.eqb_eq in H. exact H.
   Qed.
 
   Definition wrank (rk : lock -> nat) (s : state) (t : thread) : nat :=
@@ -116,22 +128,41 @@ Section Proofs.
       + exists a. split. left; reflexivity. intros u [<-|Hu]. lia. specialize (Hmax u Hu). lia.
   Qed.
 
-  Lemma ranked_no_deadlocked : forall (rk : lock -> nat) s,
-    (forall a b, In (a, b) E -> rk a < rk b) -> inv s -> forall D, ~ deadlocked s D.
+  (* roles declared single have at most one thread *)
+  Definition singles_respected (single : role -> bool) : Prop :=
+    forall t u, single (role_of t) = true -> role_of u = role_of t -> u = t.
+
+  (* the core argument: take the member of D that waits for the lock of highest rank; the thread holding that
+     lock waits on the same level, so its edge is a level edge of a single role; the next holder in the chain
+     then has the same single role, hence is the same thread, which would wait for a lock it holds *)
+  Lemma ranked_no_deadlocked : forall single rk s,
+    order_ok single rk E = true -> singles_respected single -> inv s -> forall D, ~ deadlocked s D.
   Proof.
-    intros rk s Hrk Hinv D [Hne Hall].
+    intros single rk s Hok Hsing Hinv D [Hne Hall].
     destruct (max_member (wrank rk s) D Hne) as [t [Hin Hmax]].
     destruct (Hall t Hin) as [u [Hu [l [Hwt Hheld]]]].
-    destruct (Hall u Hu) as [v [_ [m [Hwu _]]]].
-    pose proof (waits_rank rk s Hrk Hinv t u l m Hwt Hheld Hwu) as Hlt.
-    specialize (Hmax u Hu). unfold wrank in Hmax. rewrite Hwt, Hwu in Hmax. lia.
+    destruct (Hall u Hu) as [v [Hv [m [Hwu Hheldv]]]].
+    destruct (Hall v Hv) as [x [_ [k [Hwv _]]]].
+    destruct (Hinv u m Hwu) as [Halu Hnotu].
+    destruct (Hinv v k Hwv) as [Halv _].
+    pose proof (Halu l Hheld) as He1.   (* (role u, (l, m)) *)
+    pose proof (Halv m Hheldv) as He2.  (* (role v, (m, k)) *)
+    pose proof (Hmax u Hu) as Hmu. pose proof (Hmax v Hv) as Hmv.
+    unfold wrank in Hmu, Hmv. rewrite Hwt in Hmu, Hmv. rewrite Hwu in Hmu. rewrite Hwv in Hmv.
+    destruct (order_ok_edge single rk Hok _ _ _ He1) as [Hlt|[Heq1 [Hs1 Huniq]]]; [lia|].
+    destruct (order_ok_edge single rk Hok _ _ _ He2) as [Hlt|[Heq2 _]]; [lia|].
+    assert (Hrole : role_of v = role_of u).
+    { apply (Huniq _ _ _ He2). exact Heq2. lia. }
+    assert (Hvu : v = u) by (apply Hsing; assumption).
+    subst v. apply Hnotu. exact Hheldv.
   Qed.
 
-  Theorem acyclic_no_deadlocked_set : acyclic E = true ->
-    forall s, reachable E can_grant s -> forall D, ~ deadlocked s D.
+  Theorem order_ok_no_deadlocked_set : forall single rk,
+    order_ok single rk E = true -> singles_respected single ->
+    forall s, reachable E role_of can_grant s -> forall D, ~ deadlocked s D.
   Proof.
-    intros Ha s Hr D. apply ranked_no_deadlocked with (rk := rank E).
-    apply acyclic_rank; exact Ha. apply inv_reachable; exact Hr.
+    intros single rk Hok Hsing s Hr D. apply ranked_no_deadlocked with (single := single) (rk := rk); try assumption.
+    apply inv_reachable; exact Hr.
   Qed.
 
   Lemma wait_cycle_deadlocked : forall s c, wait_cycle s c -> deadlocked s c.
@@ -143,26 +174,45 @@ Section Proofs.
     - rewrite <- Hnth. apply Hall. exact Hi.
   Qed.
 
-  (* the theorem of the design: with an acyclic nesting relation no reachable state has a wait-for cycle *)
-  Theorem acyclic_no_deadlock : acyclic E = true ->
-    forall s, reachable E can_grant s -> forall c, ~ wait_cycle s c.
+  Theorem order_ok_no_deadlock : forall single rk,
+    order_ok single rk E = true -> singles_respected single ->
+    forall s, reachable E role_of can_grant s -> forall c, ~ wait_cycle s c.
   Proof.
-    intros Ha s Hr c Hc. apply (acyclic_no_deadlocked_set Ha s Hr c). apply wait_cycle_deadlocked. exact Hc.
+    intros single rk Hok Hsing s Hr c Hc.
+    apply (order_ok_no_deadlocked_set single rk Hok Hsing s Hr c). apply wait_cycle_deadlocked. exact Hc.
   Qed.
 
-  (* the standard argument, stated on its own: a wait-for cycle in a reachable state induces a cycle of E
-     through the (held, requested) pairs *)
-  Lemma wait_cycle_no_rank : forall s c, reachable E can_grant s -> wait_cycle s c ->
-    ~ exists rk : lock -> nat, forall a b, In (a, b) E -> rk a < rk b.
+  (* the plain check is the special case without single roles *)
+  Lemma acyclic_order_ok : acyclic (untag E) = true -> order_ok (fun _ => false) (rank (untag E)) E = true.
   Proof.
-    intros s c Hr Hc [rk Hrk].
-    apply (ranked_no_deadlocked rk s Hrk (inv_reachable s Hr) c). apply wait_cycle_deadlocked. exact Hc.
+    intro Ha. unfold order_ok. apply forallb_forall. intros [r [a b]] Hin. unfold tfrom, tto. cbn [fst snd].
+    assert (Hlt : rank (untag E) a < rank (untag E) b).
+    { apply acyclic_rank. exact Ha. unfold untag. apply in_map_iff. exists (r, (a, b)). split. reflexivity. exact Hin. }
+    apply Nat.ltb_lt in Hlt. rewrite Hlt. reflexivity.
+  Qed.
+
+  Lemma no_singles_respected : singles_respected (fun _ => false).
+  Proof. intros t u H. discriminate H. Qed.
+
+  Theorem acyclic_no_deadlocked_set : acyclic (untag E) = true ->
+    forall s, reachable E role_of can_grant s -> forall D, ~ deadlocked s D.
+  Proof.
+    intros Ha. apply order_ok_no_deadlocked_set with (single := fun _ => false) (rk := rank (untag E)).
+    apply acyclic_order_ok; exact Ha. apply no_singles_respected.
+  Qed.
+
+  (* the theorem of the design: with an acyclic nesting relation no reachable state has a wait-for cycle *)
+  Theorem acyclic_no_deadlock : acyclic (untag E) = true ->
+    forall s, reachable E role_of can_grant s -> forall c, ~ wait_cycle s c.
+  Proof.
+    intros Ha s Hr c Hc. apply (acyclic_no_deadlocked_set Ha s Hr c). apply wait_cycle_deadlocked. exact Hc.
   Qed.
 End Proofs.
 
 (* ---------- progress: a blocked configuration can always move ---------- *)
 Section Progress.
-  Variable E : list edge.
+  Variable E : list tedge.
+  Variable role_of : thread -> role.
   Variable can_grant : state -> thread -> lock -> Prop.
   Hypothesis grant_free : forall s t l, free s l -> can_grant s t l.
 
@@ -216,7 +266,7 @@ Section Progress.
           apply grant_free. apply holder_below_none with (n := n); assumption.
   Qed.
 
-  Lemma unblock_step : forall s s', unblock can_grant s s' -> step E can_grant s s'.
+  Lemma unblock_step : forall s s', unblock can_grant s s' -> step E role_of can_grant s s'.
   Proof.
     intros s s' H. destruct H as [s t l Hw Hg | s t l Hw Hin].
     - apply StepGrant; assumption.
@@ -226,12 +276,13 @@ Section Progress.
   (* progress: in a reachable state with finitely many active threads, if some thread waits then a step is
      enabled that is not a new request: a waiting thread can be granted its (free) lock, or a thread that is
      not waiting can release a lock *)
-  Theorem acyclic_progress : acyclic E = true ->
-    forall n s, reachable E can_grant s -> bounded n s ->
+  Theorem order_ok_progress : forall single rk,
+    order_ok single rk E = true -> singles_respected role_of single ->
+    forall n s, reachable E role_of can_grant s -> bounded n s ->
     (exists t, waiting (s t) <> None) ->
     exists s', unblock can_grant s s'.
   Proof.
-    intros Ha n s Hr Hb [t0 Hw0].
+    intros single rk Hok Hsing n s Hr Hb [t0 Hw0].
     set (W := filter (fun t => match waiting (s t) with Some _ => true | None => false end) (seq 0 n)).
     assert (HW : forall t, In t W <-> (t < n /\ is_waiting s t)).
     { intro t. unfold W. rewrite filter_In, in_seq. split.
@@ -244,10 +295,19 @@ Section Progress.
     destruct (scan_waiting n s Hb W) as [Hstep|Hdead].
     - intros t Ht. apply HW in Ht. apply Ht.
     - exact Hstep.
-    - exfalso. apply (acyclic_no_deadlocked_set E can_grant Ha s Hr W).
+    - exfalso. apply (order_ok_no_deadlocked_set E role_of can_grant single rk Hok Hsing s Hr W).
       split. intro He. rewrite He in Ht0. exact Ht0.
       intros t Ht. destruct (Hdead t Ht) as [u [Hun [Hwu Hwf]]].
       exists u. split. apply HW. split; assumption. exact Hwf.
+  Qed.
+
+  Theorem acyclic_progress : acyclic (untag E) = true ->
+    forall n s, reachable E role_of can_grant s -> bounded n s ->
+    (exists t, waiting (s t) <> None) ->
+    exists s', unblock can_grant s s'.
+  Proof.
+    intro Ha. apply order_ok_progress with (single := fun _ => false) (rk := rank (untag E)).
+    apply acyclic_order_ok; exact Ha. apply no_singles_respected.
   Qed.
 End Progress.
 
